@@ -396,6 +396,11 @@ def specAsksOn (w : Workload) (bundle : List Str) (c : CustomOpts) (tcp tcpShape
     (req : Request) : List Str :=
   customAsks c tcpShape (((ps.map (clause2 tcp)).filter (applies w)).map (expandPolicy bundle)) req
 
+/-- ... and where: the authorizer of a provider is the service its mesh-config entry names. -/
+def specAskTargets (w : Workload) (bundle : List Str) (c : CustomOpts) (tcp tcpShape : Bool) (ps : List Policy)
+    (req : Request) : List ExtTarget :=
+  (specAsksOn w bundle c tcp tcpShape ps req).map fun pr => (c.targetOf pr).onChain tcpShape
+
 /-- The decision the policy semantics define for a request to workload `w` in a mesh with the
     trust domain bundle `bundle`. -/
 def specDecision (w : Workload) (bundle : List Str) (ps : List Policy) (req : Request) : Bool :=
